@@ -69,6 +69,9 @@ pub fn gen_for(prop: &str, case: &Case) -> Gen {
 
 fn tune(prop: &str, cfg: &mut GenCfg, seed: u64) {
     let mut r = Rng::new(mix(seed, 0x7E57));
+    if matches!(prop, "C01" | "C05") {
+        cfg.huge_value = seed % 16 == 0;
+    }
     match prop {
         "C05" => {
             // biased to bucket deletion at several depths, splits and merges
@@ -79,6 +82,12 @@ fn tune(prop: &str, cfg: &mut GenCfg, seed: u64) {
             cfg.p_shape = cfg.p_shape.max(50);
         }
         "C06" => {
+            // one run in three keeps readers open across commits and rollbacks
+            if r.chance(1, 3) {
+                cfg.readers = true;
+                cfg.max_readers = r.range(1, 3) as u32;
+                cfg.p_reopen = 0;
+            }
             cfg.p_drop = *r.pick(&[30, 50, 70]);
             cfg.p_ro = *r.pick(&[10, 25]);
             cfg.ro_mutators = true;
@@ -140,12 +149,18 @@ pub fn engine_cfg(case: &Case, path: &str) -> EngineCfg {
         "C06" => {
             e.c06 = true;
             e.fsck_fail = false;
+            // reopening with other options must not touch an existing file
+            e.reopen_np_factor = if case.seed % 2 == 0 { 4 } else { 1 };
+            // readers may be held across commits: leave room so that growth is rarely needed
+            e.num_pages = e.num_pages.max(4096);
         }
         // the differential run must do exactly the same reads inside the surviving
         // transactions (in-transaction reads legitimately change which pages a commit rewrites)
         "C06-diff" => {
             e.c06 = true;
             e.fsck_fail = false;
+            e.reopen_np_factor = if case.seed % 2 == 0 { 4 } else { 1 };
+            e.num_pages = e.num_pages.max(4096);
         }
         "C03" => {
             // a reader and a growing writer on one thread self-deadlock by construction
@@ -229,18 +244,21 @@ fn c06_differential(case: &Case, first: &Verdict, commits: &[crate::seq::CommitR
                 if rw {
                     kept.append(&mut block);
                 } else {
+                    kept.extend(block.drain(..).filter(|x| matches!(x, Step::OpenReader | Step::CloseReader { .. })));
                     removed += 1;
                 }
                 block.clear();
                 in_tx = None;
             }
             (Some(_), Step::Drop) => {
-                block.clear();
+                // readers opened or closed while the abandoned transaction was open are
+                // transactions of their own: they stay in the history
+                kept.extend(block.drain(..).filter(|x| matches!(x, Step::OpenReader | Step::CloseReader { .. })));
                 removed += 1;
                 in_tx = None;
             }
             (Some(_), Step::Reopen) => {
-                block.clear();
+                kept.extend(block.drain(..).filter(|x| matches!(x, Step::OpenReader | Step::CloseReader { .. })));
                 removed += 1;
                 in_tx = None;
                 kept.push(s.clone());
